@@ -66,7 +66,8 @@ PROPS = {
     },
     "C10": {
         "proof_files": ["Proofs/ConfigFacts.v"],
-        "runs": [{"engine": "forwarder", "args": [], "n_quick": 600, "n_thorough": 60000, "netns": True}],
+        "runs": [{"engine": "forwarder", "args": [], "n_quick": 600, "n_thorough": 60000, "netns": True},
+                 {"engine": "daemon", "args": ["-mode", "fwd"], "n_quick": 30, "n_thorough": 1500, "netns": True}],
         "trivial_tags": [r"^default$"],
         "rule": "random ordered forwarder lists (1-5 entries over a pool of nested/overlapping domains in random letter case, "
                 "domain-less entries at any position, Set's same-domain replacement) x 4 names each (equal, child, grandchild, "
@@ -138,13 +139,14 @@ PROPS = {
     },
     "C16": {
         "proof_files": ["Proofs/ListenFacts.v", "Mutants/ListenRace.v"],
-        "runs": [{"engine": "listen", "args": [], "n_quick": 120, "n_thorough": 5000, "netns": True}],
+        "runs": [{"engine": "listen", "args": [], "n_quick": 120, "n_thorough": 5000, "netns": True},
+                 {"engine": "daemon", "args": ["-mode", "bind"], "n_quick": 25, "n_thorough": 300, "netns": True}],
         "trivial_tags": [],
         "rule": "1-4 listen addresses (127.0.0.1, 127.0.0.2, ::1), every address independently free / UDP busy / TCP busy / both busy, "
                 "cancellation: none, immediate, after 1 ms, after the listeners are ready, at a random sub-3ms delay; judged by the extracted "
                 "c16_ok spec: returned within the 2 s watchdog, every address can be bound again at once, non-nil error, and the bind error "
                 "when a bind failed and nobody cancelled. Every run is in the quantifier (non-trivial = all)",
-        "assumptions": ["proxySvc.start (package main): the starter is already receiving when ListenAndServe fails; not exercised here",
+        "assumptions": ["proxySvc.start (package main) is exercised by the daemon engine only (real binary, unbindable addresses, shared CPU)",
                         "fair scheduling by the Go runtime"],
     },
     "C17": {
